@@ -14,7 +14,7 @@ use_repo()
 
 import ebpfcat.lock as lockmod  # noqa: E402
 from ebpfcat.ethercat import (  # noqa: E402
-    CoECmd, EtherCat, ODCmd, Terminal)
+    CoECmd, EtherCat, EtherCatError, ODCmd, Terminal)
 from ebpfcat.lock import LockFile, MailboxLock, ParallelMailboxLock  # noqa
 
 PROPERTY = "C15"
@@ -95,8 +95,10 @@ def inproc_history(rng, parallel, tmpdir):
     it = iter(lats)
     t.mbx_resp_latency = lambda: next(it, 0)
     b = bus.Bus([t])
-    plan_ = [[rng.choice(["read", "write", "coe"]) for _ in range(nops)]
-             for _ in range(ntask)]
+    # "abort": an exchange that ends with an exception after its request
+    # went out (upload of an object the terminal does not have)
+    plan_ = [[rng.choice(["read", "write", "coe", "read", "abort"])
+              for _ in range(nops)] for _ in range(ntask)]
     gaps = [[rng.choice([0, 0, 1, 3]) for _ in range(nops)]
             for _ in range(ntask)]
     errors = []
@@ -126,6 +128,13 @@ def inproc_history(rng, parallel, tmpdir):
                             errors.append(f"user {k} read {r!r}")
                     elif op == "write":
                         await term.sdo_write(bytes([k, 1]), 0x7000 + k, 1)
+                    elif op == "abort":
+                        try:
+                            await term.sdo_read(0x6f00 + k, 1)
+                            errors.append(f"user {k}: upload of a missing "
+                                          "object succeeded")
+                        except EtherCatError:
+                            pass
                     else:
                         await term.coe_request(CoECmd.SDOINFO,
                                                ODCmd.LIST_REQ, "H", 1)
@@ -135,7 +144,14 @@ def inproc_history(rng, parallel, tmpdir):
         await asyncio.wait_for(asyncio.gather(*[user(k)
                                                 for k in range(ntask)]), 500)
     try:
-        aio.run(main)
+        # bounded progress: histories of this size end within ~500 loop
+        # iterations; 50000 without ending is a verdict (somebody polls for
+        # ever), the wall clock is not
+        aio.run(main, max_iterations=50000)
+    except aio.WallClock:
+        raise
+    except aio.Idle as ex:
+        errors.append(f"history never ends: {ex}")
     except Exception as ex:
         errors.append(f"history aborted: {type(ex).__name__}: {ex}")
     # events at the terminal
@@ -221,7 +237,14 @@ def cancel_waiter_history(rng, parallel, tmpdir):
             if not v.cancelled():
                 errors.append("cancelled waiter did not end cancelled")
     try:
-        aio.run(main)
+        # bounded progress: histories of this size end within ~500 loop
+        # iterations; 50000 without ending is a verdict (somebody polls for
+        # ever), the wall clock is not
+        aio.run(main, max_iterations=50000)
+    except aio.WallClock:
+        raise
+    except aio.Idle as ex:
+        errors.append(f"history never ends: {ex}")
     except Exception as ex:
         errors.append(f"history aborted: {type(ex).__name__}: {ex}")
     evs = []
@@ -524,7 +547,12 @@ def run_shard(params):
         if params["mode"] == "inproc":
             for i in range(params["n"]):
                 for parallel in (False, True):
-                    evs, errors, desc = inproc_history(rng, parallel, tmpdir)
+                    try:
+                        evs, errors, desc = inproc_history(rng, parallel,
+                                                           tmpdir)
+                    except aio.WallClock:
+                        res.inconc("in-process history: wall-clock watchdog")
+                        continue
                     nw = sum(1 for e in evs if e[0] == "W")
                     res.case(desc, nontrivial=desc["tasks"] >= 2 and nw >= 2)
                     res.count("mailbox_writes", nw)
@@ -540,6 +568,8 @@ def run_shard(params):
                                                    errors=errors[:4]))
                     elif errors:
                         res.violation(
+                            "unexplained:inproc-history-never-ends"
+                            if any("never ends" in e_ for e_ in errors) else
                             "parallel-lock-does-not-exclude-tasks-of-one-"
                             "process" if parallel else
                             "unexplained:inproc-client-error",
